@@ -52,6 +52,7 @@ pub const Y: S = 91;
 /// free pattern slots
 pub const FS: S = 92;
 pub const FT: S = 93;
+pub const FU: S = 94;
 
 pub fn rule_pool(p: u32) -> Vec<Rule> {
     let r = |name: &'static str, l: Pat, r: Pat| Rule { name, l, r, cond: None, cond2: None, cond_eq: None };
@@ -103,6 +104,9 @@ pub fn rule_pool(p: u32) -> Vec<Rule> {
         // a free pattern slot that occurs twice: (a + x) - x = a
         r("add-sub-var", n2("add", n2("add", v(0), var(FS)), n1("neg", var(FS))), v(0)),
         r("mul-var-comm", n2("mul", var(FS), var(FT)), n2("mul", var(FT), var(FS))),
+        // a right side with a slot of its own: every a - a is the same class, which therefore has a
+        // redundant slot that its smallest term mentions twice (no constant is introduced)
+        r("add-neg-canon", n2("add", v(0), n1("neg", v(0))), n2("add", var(FU), n1("neg", var(FU)))),
     ]
 }
 
